@@ -6,7 +6,7 @@ every history of further registrations and calls (through reflect or compiled ca
 tuple) each call returns the result of the first condition registered *before it* that holds (declarative `Sat`),
 else the default, else panics `nosuitable` (NumOut > 0) / returns nothing (NumOut = 0); receiver ignored; variadic
 tail matched element-wise, nil or empty.  Tie X: an in-package probe of the root package installs generated
-configurations on a corpus of 45 real functions/methods (fixed arity 0..4, variadic behind 0..3 fixed parameters,
+configurations on a corpus of 43 real functions/methods (fixed arity 0..4, variadic behind 0..3 fixed parameters,
 pointer and value receivers, unexported methods through As(), interface variables, 0..3 results), interleaves
 registrations with calls of the *patched* functions (reflect, compiled call sites, concurrent goroutines) and
 When.Eval, and the model driver answers the same lines.  The oracle below is a separate reference interpreter of the
@@ -18,7 +18,7 @@ from vlib import common as C
 
 META = {
     'property_id': 'C04',
-    'technique': 'Lean 4 theorems (induction over configurations, histories of registrations and calls, expression trees and argument tuples) about a transcription of When/Matcher/Expr + differential run of generated histories on 45 really patched corpus functions (reflect, compiled and concurrent calls) and When.Eval',
+    'technique': 'Lean 4 theorems (induction over configurations, histories of registrations and calls, expression trees and argument tuples) about a transcription of When/Matcher/Expr + differential run of generated histories on 43 really patched corpus functions (reflect, compiled and concurrent calls) and When.Eval',
     'level': 'proof',
     'level_text': 'Full proof on the model: for every signature (fixed arity, variadic behind k >= 0 fixed parameters, methods), every well-formed configuration (optional default, then any number of When/In/Matches clauses over values, Any, nested In) and every later history of further registrations and calls, each call returns the result of the first condition registered before it whose expressions all hold, else the default, else panics "no suitable condition" when the function has results (returns normally when it has none); the receiver is ignored and the variadic tail is matched element by element, whether the caller passes it as an empty or a nil slice.',
     'level_note': 'Trusted: Lean kernel (propext, Classical.choice, Quot.sound), the hand transcription Model/When.lean (tied by the differential run on every check run; distribution in the evidence), the probe and its value domains. Abstracted: argument equality is a parameter (C18), result sequences/cursor only for single-result matchers (C05), types of values (only arities), reflect.MakeFunc/Call ABI (C01); concurrent calls are observed on the implementation (the model is sequential; single-result conditions have no call-time state, theorem invoke_inv2). The theorems describe the repaired code (fix diffs F6/F6c applied; F27-c04-first-when-variadic and F28-c04-in-bare-nonslice drafted in fixes/): on a tree without them the oracle reports the violations. Two configuration shapes are excluded or recorded: known finding C04-K1 (a configuration starting with When() without arguments; invoke_spec_full is refuted in Findings/C04K1.lean) and C04-K2 (an unexported method mocked through ExportMethod().As(): goom treats the receiver as an ordinary first parameter, so conditions written for the method are refused).',
@@ -500,6 +500,8 @@ def oracle(op, obs, stats=None):
         return None
     if obs is None or obs == 'crash':
         return ('no observation: the probe process died on this line (twice)', None, None)
+    if obs.startswith('bad-') or 'probe-panic' in obs:
+        return None                 # not a statement about goom (run() turns these into a machinery error)
     toks = obs.split()
     k, v, m, o = T[name]
     first_cond = next((i for i, e in enumerate(events) if e[0] == 'reg'), None)
@@ -630,7 +632,7 @@ def variants(op):
                 out.append(join_line(head, rest))
         if s[0] == 'matches':
             out.append(join_line(head, steps[:i] + steps[i + 1:]))
-    return out
+    return [c for c in out if split_line(c)[1] and split_line(c)[1][0][0] not in ('call', 'conc')]
 
 
 def shrink(op, key, binary):
@@ -701,10 +703,15 @@ def run(tier):
         if sum(1 for x in impl if x and 'ret:' in x) < len(ops) // 3:
             raise C.Infra('C04: fewer than a third of the lines produced any result: the probe did not run properly')
     seen = set()
-    for i, (what, key, _) in bad:
-        if key in seen:
+    for i, (what, key, si) in bad:
+        # one report per known-finding key, or per kind of failure (which step kind failed, and how)
+        head, steps = split_line(ops[i])
+        toks = (impl[i] or '').split()
+        sig = key or (steps[si][0] if si is not None and si < len(steps) else '?',
+                      toks[si].split('(')[0].rstrip('0123456789') if si is not None and si < len(toks) else 'none')
+        if sig in seen:
             continue
-        seen.add(key)
+        seen.add(sig)
         small = ops[i]
         try:
             if impl[i] != 'crash':
